@@ -61,6 +61,7 @@ def check(chk: Check) -> None:
     chk.not_decided += ['interleaving a partially consumed list_names generator with other calls on the same parser '
                         '(the generator shares the lexer by design)']
     chk.trusted += ['smartquery/ply run time beyond the anchors of R6']
+    _lexer_state_is_reset(chk, R2)
     g = C.grammar(F)
     lm = C.lexmodel(F)
 
@@ -109,6 +110,10 @@ def check(chk: Check) -> None:
         chk.bad(R1, cons, where, det)
     if not glob:
         chk.ok(R1, 'module-level state', 'smartquery/*.py', 'no function rebinds or mutates a module-level object; no mutated mutable default')
+    # process-wide state that lives outside the package: the thread's decimal context (precision, rounding, traps) is
+    # shared by every later call on every parser
+    from . import numeric as N
+    N.context_untouched(chk, R1)
 
     # ---------------------------------------------------------------- R2
     need_rules = {a for a, d in inv.items() if 'rules' in d and 'load' in d['rules']}
@@ -343,3 +348,37 @@ def _r6(chk: Check, R6: str) -> None:
                     bad.append('positional debug/tracking arguments')
     chk.require(not bad, R6, q + ' :: yacc.parse call site', fi.where,
                 'selects a different PLY parse variant: %s' % ', '.join(bad) if bad else 'debug/tracking off -> parseopt_notrack')
+
+
+def _lexer_state_is_reset(chk: Check, R2: str) -> None:
+    """PLY keeps the current lexer state (begin / push_state / pop_state) on the lexer object; input() does not touch it.  When
+    token rules switch states, every entry point has to put the lexer back into INITIAL before lexing, or a call that stops
+    inside another state (unterminated construct, error) decides how the next text is read.  Decided from the source of the
+    lexer module alone, before the lexer model (which does not model states) is built."""
+    F = chk.facts
+    from ..grammar import parser_modules
+    _, lex_m, _ = parser_modules(F)
+    switches = []
+    for n in ast.walk(lex_m.tree):
+        if isinstance(n, ast.Call) and isinstance(n.func, ast.Attribute) and n.func.attr in ('begin', 'push_state', 'pop_state'):
+            switches.append(n)
+    if not switches and 'states' not in lex_m.assigns:
+        return
+    for mn in ('parse', 'list_names'):
+        q = PARSER + '.' + mn
+        fi = F.func(q)
+        selft = ('param', om.self_param(F, q))
+        problems = []
+        for p in SymExec(F, fi).run():
+            runs = [e for e in p.events if e.kind == 'call' and _is_ply_call(e, selft) and freeze(e.func)[2] in ('token', 'parse')]
+            if not runs:
+                continue
+            first = p.events.index(runs[0])
+            resets = [e for e in p.events[:first] if e.kind == 'call' and isinstance(freeze(e.func), tuple) and freeze(e.func)[:1] == ('attr',)
+                      and freeze(e.func)[2] == 'begin' and freeze(e.args)[:1] == (('const', 'INITIAL'),)]
+            if not resets:
+                problems.append('a path reaches `%s` without `begin(\'INITIAL\')`' % runs[0].text())
+        chk.require(not problems, R2, '%s resets the lexer state' % q, fi.where,
+                    ('token rules switch lexer states (`%s`); %s: the state an earlier call stopped in decides how this text is '
+                     'read' % (norm(switches[0]) if switches else 'states = ...', '; '.join(sorted(set(problems))))) if problems else
+                    'the lexer is put back into INITIAL before lexing')
